@@ -248,6 +248,27 @@ def generate(rng: random.Random, tier: str):
         yield expr_case(e, "random")
     for s, expected in MALFORMED:
         yield reject_case(s, expected)
+    # big automata (appended stream): a nullable prefix followed by long sequences / large counts, so that the NFA has well
+    # over ten nodes and the subset construction has to tell state sets like {1,2} and {12} apart
+    for _ in range(60 if quick else 1500):
+        atoms = rng.choice([["a", "b"], ["a", "b", "c"], ["a", "b", "g"]])
+        pre = rng.choice([("op", ("name", atoms[0]), "*"), ("op", ("name", atoms[0]), "?"),
+                          ("op", ("alt", [("name", atoms[0]), ("name", atoms[-1])]), "*")])
+        parts = [pre]
+        for _ in range(rng.randint(1, 3)):
+            r = rng.random()
+            a = ("name", rng.choice(atoms))
+            if r < 0.4:
+                n = rng.randint(4, 12)
+                parts.append(("range", a, n, None))
+            elif r < 0.6:
+                n = rng.randint(3, 9)
+                parts.append(("range", a, n, n + rng.randint(1, 3)))
+            elif r < 0.75:
+                parts.append(("range", a, rng.randint(3, 8), -1))
+            else:
+                parts.extend(("name", rng.choice(atoms)) for _ in range(rng.randint(4, 10)))
+        yield expr_case(("seq", parts), "big-automaton")
 
 
 def rebuild(desc):
